@@ -89,3 +89,166 @@ fn std_apply_undo_board_a() {
     assert!(b.peek_castle_rights() == rights0 && b.halfmove_clock() == half0 && b.fullmove_clock() == full0);
     assert!(b.current_position_hash() == hash0 && b.peek_en_passant_target() == ep0);
 }
+
+// ---------------------------------------------------------------------------------------------
+// further bounded twins (public API only, so they do not depend on how the crate is structured
+// internally): promotions, en passant, castling.  Expected values are transcribed from the rules.
+use crate::chess_move::castle::CastleChessMove;
+use crate::chess_move::en_passant::EnPassantChessMove;
+use crate::chess_move::pawn_promotion::PawnPromotionChessMove;
+
+fn board_p() -> Board {
+    // white: Ke1 Rh1 Pb7 Pg7 Pd2 ; black: Ke8 Ra8 Rh8 Nc8 Pa2 Pf2 ; all castling rights as set up by Board::new
+    let mut b = Board::new();
+    b.put(sq(4), Piece::King, Color::White).unwrap();
+    b.put(sq(7), Piece::Rook, Color::White).unwrap();
+    b.put(sq(0), Piece::Rook, Color::White).unwrap();
+    b.put(sq(49), Piece::Pawn, Color::White).unwrap();
+    b.put(sq(54), Piece::Pawn, Color::White).unwrap();
+    b.put(sq(11), Piece::Pawn, Color::White).unwrap();
+    b.put(sq(60), Piece::King, Color::Black).unwrap();
+    b.put(sq(56), Piece::Rook, Color::Black).unwrap();
+    b.put(sq(63), Piece::Rook, Color::Black).unwrap();
+    b.put(sq(58), Piece::Knight, Color::Black).unwrap();
+    b.put(sq(9), Piece::Pawn, Color::Black).unwrap();
+    b.put(sq(13), Piece::Pawn, Color::Black).unwrap();
+    b.push_halfmove_clock(7);
+    b
+}
+
+fn promo_piece(k: u8) -> Piece {
+    match k { 0 => Piece::Queen, 1 => Piece::Rook, 2 => Piece::Bishop, _ => Piece::Knight }
+}
+
+/// every promotion (with and without capture, all four pieces, both colours) available on board_p
+#[kani::proof]
+#[kani::unwind(70)]
+fn promo_apply_undo_board_p() {
+    let mut b = board_p();
+    let f: u8 = kani::any();
+    let t: u8 = kani::any();
+    let k: u8 = kani::any();
+    kani::assume(f < 64 && t < 64 && k < 4);
+    let src = b.get(sq(f));
+    let dst = b.get(sq(t));
+    kani::assume(src.is_some());
+    let (p, c) = src.unwrap();
+    kani::assume(p == Piece::Pawn);
+    let d = t as i16 - f as i16;
+    let geometry = match c {
+        Color::White => f >= 48 && f < 56 && ((d == 8 && dst.is_none()) || ((d == 7 && f % 8 != 0 || d == 9 && f % 8 != 7) && dst.is_some())),
+        Color::Black => f >= 8 && f < 16 && ((d == -8 && dst.is_none()) || ((d == -9 && f % 8 != 0 || d == -7 && f % 8 != 7) && dst.is_some())),
+    };
+    kani::assume(geometry);
+    let captures = match dst {
+        None => None,
+        Some((q, c2)) => { kani::assume(c2 != c && q != Piece::King); Some(Capture(q)) }
+    };
+    let rights0 = b.peek_castle_rights();
+    let half0 = b.halfmove_clock();
+    let full0 = b.fullmove_clock();
+    let hash0 = b.current_position_hash();
+    let ep0 = b.peek_en_passant_target();
+    let m = PawnPromotionChessMove::new(sq(f), sq(t), captures, promo_piece(k));
+    assert!(m.apply(&mut b).is_ok());
+    let i: u8 = kani::any();
+    kani::assume(i < 64);
+    let expect = if i == t { Some((promo_piece(k), c)) } else if i == f { None } else { board_p().get(sq(i)) };
+    assert!(b.get(sq(i)) == expect);
+    assert!(b.peek_castle_rights() == rights0 & !lost_by_capture(dst, t));
+    assert!(b.peek_en_passant_target() == Bitboard(0));
+    assert!(b.halfmove_clock() == 0);                 // a promotion is a pawn move
+    assert!(b.fullmove_clock() == full0 + 1);
+    assert!(m.undo(&mut b).is_ok());
+    assert!(b.get(sq(i)) == board_p().get(sq(i)));
+    assert!(b.peek_castle_rights() == rights0 && b.halfmove_clock() == half0 && b.fullmove_clock() == full0);
+    assert!(b.current_position_hash() == hash0 && b.peek_en_passant_target() == ep0);
+}
+
+fn board_e(white_to_capture: bool) -> Board {
+    // white: Ke1 Pe5 Pa2 ; black: Ke8 Pd7/Pd5 Pf5 Ph7.   The double step d7-d5 (or a2-a4 for the black capture) is played through the API.
+    let mut b = Board::new();
+    b.put(sq(4), Piece::King, Color::White).unwrap();
+    b.put(sq(60), Piece::King, Color::Black).unwrap();
+    b.lose_castle_rights(0b1111);
+    if white_to_capture {
+        b.put(sq(36), Piece::Pawn, Color::White).unwrap();   // e5
+        b.put(sq(51), Piece::Pawn, Color::Black).unwrap();   // d7
+        b.put(sq(37), Piece::Pawn, Color::Black).unwrap();   // f5
+        StandardChessMove::new(sq(51), sq(35), None).apply(&mut b).unwrap();   // d7-d5: target d6
+    } else {
+        b.put(sq(25), Piece::Pawn, Color::Black).unwrap();   // b4
+        b.put(sq(8), Piece::Pawn, Color::White).unwrap();    // a2
+        b.put(sq(26), Piece::Pawn, Color::White).unwrap();   // c4
+        StandardChessMove::new(sq(8), sq(24), None).apply(&mut b).unwrap();    // a2-a4: target a3
+    }
+    b
+}
+
+#[kani::proof]
+#[kani::unwind(70)]
+fn ep_apply_undo() {
+    let w: bool = kani::any();
+    let mut b = board_e(w);
+    let (f, t, v, c) = if w { (36u8, 43u8, 35u8, Color::White) } else { (25u8, 16u8, 24u8, Color::Black) };
+    assert!(b.peek_en_passant_target() == sq(t));
+    let half0 = b.halfmove_clock();
+    let full0 = b.fullmove_clock();
+    let hash0 = b.current_position_hash();
+    let rights0 = b.peek_castle_rights();
+    let m = EnPassantChessMove::new(sq(f), sq(t));
+    assert!(m.apply(&mut b).is_ok());
+    let i: u8 = kani::any();
+    kani::assume(i < 64);
+    let expect = if i == t { Some((Piece::Pawn, c)) } else if i == f || i == v { None } else { board_e(w).get(sq(i)) };
+    assert!(b.get(sq(i)) == expect);
+    assert!(b.peek_en_passant_target() == Bitboard(0) && b.halfmove_clock() == 0 && b.fullmove_clock() == full0 + 1);
+    assert!(b.peek_castle_rights() == rights0);
+    assert!(m.undo(&mut b).is_ok());
+    assert!(b.get(sq(i)) == board_e(w).get(sq(i)));
+    assert!(b.peek_en_passant_target() == sq(t) && b.halfmove_clock() == half0 && b.fullmove_clock() == full0);
+    assert!(b.current_position_hash() == hash0 && b.peek_castle_rights() == rights0);
+}
+
+fn board_c() -> Board {
+    // both sides: king and both rooks at home, nothing between; a few bystanders
+    let mut b = Board::new();
+    b.put(sq(4), Piece::King, Color::White).unwrap();
+    b.put(sq(0), Piece::Rook, Color::White).unwrap();
+    b.put(sq(7), Piece::Rook, Color::White).unwrap();
+    b.put(sq(60), Piece::King, Color::Black).unwrap();
+    b.put(sq(56), Piece::Rook, Color::Black).unwrap();
+    b.put(sq(63), Piece::Rook, Color::Black).unwrap();
+    b.put(sq(12), Piece::Pawn, Color::White).unwrap();
+    b.put(sq(52), Piece::Pawn, Color::Black).unwrap();
+    b.push_halfmove_clock(3);
+    b
+}
+
+#[kani::proof]
+#[kani::unwind(70)]
+fn castle_apply_undo_board_c() {
+    let mut b = board_c();
+    let white: bool = kani::any();
+    let kingside: bool = kani::any();
+    let c = if white { Color::White } else { Color::Black };
+    let m = if kingside { CastleChessMove::castle_kingside(c) } else { CastleChessMove::castle_queenside(c) };
+    let f: u8 = if white { 4 } else { 60 };
+    let (t, rf, rt) = if kingside { (f + 2, f + 3, f + 1) } else { (f - 2, f - 4, f - 1) };
+    let half0 = b.halfmove_clock();
+    let full0 = b.fullmove_clock();
+    let hash0 = b.current_position_hash();
+    let rights0 = b.peek_castle_rights();
+    assert!(m.apply(&mut b).is_ok());
+    let i: u8 = kani::any();
+    kani::assume(i < 64);
+    let expect = if i == t { Some((Piece::King, c)) } else if i == rt { Some((Piece::Rook, c)) }
+                 else if i == f || i == rf { None } else { board_c().get(sq(i)) };
+    assert!(b.get(sq(i)) == expect);
+    assert!(b.peek_castle_rights() == rights0 & !(if white { 10 } else { 5 }));
+    assert!(b.peek_en_passant_target() == Bitboard(0) && b.halfmove_clock() == half0 + 1 && b.fullmove_clock() == full0 + 1);
+    assert!(m.undo(&mut b).is_ok());
+    assert!(b.get(sq(i)) == board_c().get(sq(i)));
+    assert!(b.peek_castle_rights() == rights0 && b.halfmove_clock() == half0 && b.fullmove_clock() == full0);
+    assert!(b.current_position_hash() == hash0 && b.peek_en_passant_target() == Bitboard(0));
+}
